@@ -167,13 +167,13 @@ func encodeLeaf(d *Doc) ([]byte, error) {
 }
 
 var xBytes = map[string][]byte{
-	"trunc":    {0xd1, 0x00},                   // int16 with one payload byte missing
-	"trail":    {0x01, 0x02},                   // fixint 1, then one more value
-	"resv":     {0xc1},                         // the never-used format byte
-	"short":    {0x92, 0x01},                   // array of 2 with 1 element
-	"empty":    {},                             // no bytes at all
-	"maptrail": {0x81, 0xa1, 'x', 0x01, 0xff},  // {x: 1}, then one more byte
-	"mapshort": {0x82, 0xa1, 'x', 0x01},        // map of 2 with 1 entry
+	"trunc":    {0xd1, 0x00},                  // int16 with one payload byte missing
+	"trail":    {0x01, 0x02},                  // fixint 1, then one more value
+	"resv":     {0xc1},                        // the never-used format byte
+	"short":    {0x92, 0x01},                  // array of 2 with 1 element
+	"empty":    {},                            // no bytes at all
+	"maptrail": {0x81, 0xa1, 'x', 0x01, 0xff}, // {x: 1}, then one more byte
+	"mapshort": {0x82, 0xa1, 'x', 0x01},       // map of 2 with 1 entry
 }
 
 func encodeDoc(d *Doc, style int) ([]byte, error) {
